@@ -24,6 +24,19 @@ class Context:
         self.ba = BindingAnalysis(self.p, self.cg)
         self.r = Reporter(pid, tier, root, seed=seed, quiet=quiet)
 
+    def do(self, rule_fn, *args, **kwargs):
+        """Run one rule; an AnalysisError inside it is recorded as a gap so
+        that the other rules of the property still report."""
+        from .shape import Unsupported
+        try:
+            return rule_fn(self, *args, **kwargs)
+        except Unsupported as e:
+            self.r.gap(rule_fn.__name__, str(e), fatal=getattr(
+                rule_fn, "fatal_unsupported", False))
+        except AnalysisError as e:
+            self.r.gap(rule_fn.__name__, str(e), fatal=True)
+        return None
+
 
 def run_check(pid, tier, root, seed=0, quiet=False):
     """-> (exit_code, reporter or None)"""
